@@ -635,6 +635,13 @@ class PseudoNetCDFFile(PseudoNetCDFSelfReg, object):
             # the last edge closes the last cell: no index beyond size - 1
             cidx = np.minimum(idx, dimvals.size - 1)
             fidx = np.interp(val, dimevals, cidx, left=left, right=right)
+            # inside the domain locate the cell by comparing with the edges:
+            # an interpolated index can round up to the next cell for values
+            # a few ulp below an edge
+            j = np.searchsorted(dimevals, val, side='right')
+            j = np.clip(j, 1, dimevals.size - 1)
+            inside = (val >= dimevals[0]) & (val <= dimevals[-1])
+            fidx = np.where(inside, np.minimum(cidx[j - 1], cidx[j]), fidx)
         else:
             fidx = np.interp(val, dimvals, idx, left=left, right=right)
 
